@@ -75,19 +75,37 @@ theorem escElem_width (q : Nat) (s : Bytes) (c w : Nat) (h : Lang.escElem q s = 
           have := octEscape_width _ _ _ _ h; simp; omega
         · rw [if_neg d4] at h; cases h
 
-theorem strElem_width (s : Bytes) (c w : Nat) (h : Lang.strElem s = some (c, w)) : 1 ≤ w ∧ w ≤ s.length := by
-  unfold Lang.strElem at h
-  cases he : Lang.escElem 34 s with
-  | none => rw [he] at h; cases h
-  | some p =>
-    obtain ⟨c', w'⟩ := p
-    rw [he] at h
-    simp only [] at h
-    split at h
-    · cases h
-    · simp only [Option.some.injEq, Prod.mk.injEq] at h
-      have := escElem_width 34 s c' w' he
-      omega
+/-- a raw line break is not an element -/
+theorem strElem_nl (l : Bytes) (h : l.head? = some 13 ∨ l.head? = some 10) : Lang.strElem l = none := by
+  unfold Lang.strElem; rw [if_pos h]
+
+theorem strElem_not_nl (l : Bytes) (h : ¬ (l.head? = some 13 ∨ l.head? = some 10)) :
+    Lang.strElem l = match Lang.escElem 34 l with
+      | some (c, w) => if c = Utf8.runeError ∧ w = 1 then none else some (c, w)
+      | none => none := by
+  unfold Lang.strElem; rw [if_neg h]; rfl
+
+theorem strElem_some (s : Bytes) (c w : Nat) (h : Lang.strElem s = some (c, w)) :
+    ¬ (s.head? = some 13 ∨ s.head? = some 10) ∧ Lang.escElem 34 s = some (c, w) ∧ ¬ (c = Utf8.runeError ∧ w = 1) := by
+  by_cases hnl : s.head? = some 13 ∨ s.head? = some 10
+  · rw [strElem_nl s hnl] at h; cases h
+  · rw [strElem_not_nl s hnl] at h
+    cases he : Lang.escElem 34 s with
+    | none => rw [he] at h; cases h
+    | some p =>
+      obtain ⟨c', w'⟩ := p
+      rw [he] at h
+      simp only [] at h
+      by_cases hb : c' = Utf8.runeError ∧ w' = 1
+      · rw [if_pos hb] at h; cases h
+      · rw [if_neg hb] at h
+        simp only [Option.some.injEq, Prod.mk.injEq] at h
+        obtain ⟨h1, h2⟩ := h
+        subst h1; subst h2
+        exact ⟨hnl, rfl, hb⟩
+
+theorem strElem_width (s : Bytes) (c w : Nat) (h : Lang.strElem s = some (c, w)) : 1 ≤ w ∧ w ≤ s.length :=
+  escElem_width 34 s c w (strElem_some s c w h).2.1
 
 def widths (es : List (Nat × Nat)) : Nat := (es.map (·.2)).sum
 
@@ -120,8 +138,10 @@ theorem unquoteLoop_eq : ∀ (fuel : Nat) (str res : Bytes),
     unfold unquoteLoop Lang.strElems
     by_cases hs : str = []
     · subst hs; simp [Lang.strElem, Lang.escElem, widths]
-    rw [if_neg hs, unquoteChar_eq str 34 (Or.inl rfl)]
-    unfold Lang.strElem
+    rw [if_neg hs]
+    by_cases hnl : str.head? = some 13 ∨ str.head? = some 10
+    · rw [if_pos (by simpa using hnl), strElem_nl str hnl]; simp [widths]
+    rw [if_neg (by simpa using hnl), strElem_not_nl str hnl, unquoteChar_eq str 34 (Or.inl rfl)]
     cases he : Lang.escElem 34 str with
     | none => simp [stepOf, widths]
     | some p =>
@@ -270,8 +290,7 @@ theorem strElem_hex_x (h1 h2 : Nat) (t : Bytes) (hh1 : Lang.hexDigit h1 = true) 
     unfold Lang.hexEscape
     rw [if_pos ⟨by simp, by simp [hh1, hh2], Or.inl rfl⟩]
     simp [Lang.digitsValue]
-  unfold Lang.strElem
-  rw [he, hx]
+  rw [strElem_not_nl _ (by simp), he, hx]
   simp only []
   rw [if_neg (by omega)]
 
